@@ -83,8 +83,8 @@ func (s *sshSim) write(text string) {
 		return
 	}
 	text = strings.ReplaceAll(text, "\n", "\r\n")
+	s.trace.WriteString(text) // first: the run may be over as soon as the client has read the text
 	io.WriteString(s.out, text)
-	s.trace.WriteString(text)
 }
 
 // readLine returns the next input line; ok=false at end of input.
@@ -161,6 +161,8 @@ func sshSimMain(args []string) int {
 		return 2
 	}
 	device, file := args[0], args[1]
+	// an aborted in-process run never closes its pty: do not linger
+	time.AfterFunc(15*time.Second, func() { os.Exit(0) })
 	data, err := os.ReadFile(file)
 	if err != nil {
 		return 2
